@@ -1,11 +1,15 @@
 package harness
 
 import (
+	"context"
 	"encoding/json"
+	"time"
+
 	"fmt"
 	"sort"
 	"strings"
 	"testing"
+	mcp "trpc.group/trpc-go/trpc-mcp-go"
 
 	"pgregory.net/rapid"
 )
@@ -167,4 +171,126 @@ func execC14(c C14Case) *Failure {
 
 func TestC14(t *testing.T) {
 	RunProp(t, Prop[C14Case]{ID: "C14", Gen: genC14, Exec: execC14, NT: ntC14})
+}
+
+// ---------------------------------------------------------------------------
+// client half: the library's three clients return equal values for equal server answers
+
+type C14ClientCase struct {
+	Reg C02Reg `json:"reg"`
+}
+
+func collectClientView(reg C02Reg, cl mcp.Connector) map[string]string {
+	ctx, cancel := context.WithTimeout(context.Background(), 60*time.Second)
+	defer cancel()
+	out := map[string]string{}
+	errClass := func(err error) string {
+		// the wording of errors is transport specific; what must agree is success vs failure
+		return "error"
+	}
+	if lt, err := cl.ListTools(ctx, &mcp.ListToolsRequest{}); err != nil {
+		out["tools/list"] = errClass(err)
+	} else {
+		var names []string
+		for _, t := range lt.Tools {
+			a, _ := json.Marshal(t.Annotations)
+			names = append(names, t.Name+"|"+t.Description+"|"+string(a)+"|"+canonRaw(t.RawInputSchema)+"|"+canonRaw(t.RawOutputSchema))
+		}
+		sort.Strings(names)
+		out["tools/list"] = strings.Join(names, "\n")
+	}
+	for _, ts := range reg.Tools {
+		req := &mcp.CallToolRequest{}
+		req.Params.Name = ts.Name
+		req.Params.Arguments = map[string]interface{}{"x": 1}
+		if res, err := cl.CallTool(ctx, req); err != nil {
+			out["tool:"+ts.Name] = errClass(err)
+		} else {
+			out["tool:"+ts.Name] = canonJSON(projectToolResult(res))
+		}
+	}
+	for _, ps := range reg.Prompts {
+		req := &mcp.GetPromptRequest{}
+		req.Params.Name = ps.Name
+		if res, err := cl.GetPrompt(ctx, req); err != nil {
+			out["prompt:"+ps.Name] = errClass(err)
+		} else {
+			items := []interface{}{res.Description}
+			for _, m := range res.Messages {
+				items = append(items, string(m.Role), ProjectContent(m.Content))
+			}
+			out["prompt:"+ps.Name] = canonJSON(items)
+		}
+	}
+	for _, rs := range reg.Resources {
+		req := &mcp.ReadResourceRequest{}
+		req.Params.URI = rs.URI
+		if res, err := cl.ReadResource(ctx, req); err != nil {
+			out["res:"+rs.URI] = errClass(err)
+		} else {
+			items := []interface{}{}
+			for _, cc := range res.Contents {
+				items = append(items, projectResource(cc, false))
+			}
+			out["res:"+rs.URI] = canonJSON(items)
+		}
+	}
+	return out
+}
+
+func canonRaw(b json.RawMessage) string {
+	if len(b) == 0 {
+		return ""
+	}
+	v, err := DecodeJSON(b)
+	if err != nil {
+		return string(b)
+	}
+	return canonJSON(v)
+}
+
+func execC14Clients(c C14ClientCase) *Failure {
+	modes := []Mode{ModeSJ, ModeSS, ModeLegacy, ModeStdio}
+	views := make([]map[string]string, len(modes))
+	for i, m := range modes {
+		w := NewWorld(m, RegSpec{}, WorldOpt{})
+		var srv interface{}
+		switch {
+		case w.Srv != nil:
+			srv = w.Srv
+		case w.SSE != nil:
+			srv = w.SSE
+		default:
+			srv = w.Stdio
+		}
+		if m != ModeStdio {
+			registerC02(RegistrarOf(srv), c.Reg, nil)
+		}
+		lc, err := w.ConnectLib(false, &ChildSpec{Role: "server", C02: &c.Reg})
+		if err != nil {
+			w.Close()
+			return Failf("C14/connect", "%s: %v", m, err)
+		}
+		views[i] = collectClientView(c.Reg, lc.C)
+		lc.Close()
+		w.Close()
+	}
+	for _, k := range sortedKeys(views[0]) {
+		for i := 1; i < len(modes); i++ {
+			if views[i][k] != views[0][k] {
+				return Failf("C14/clients-differ/"+strings.SplitN(k, ":", 2)[0], "%s: the %s client returns %.300s, the %s client %.300s", k, modes[0], views[0][k], modes[i], views[i][k])
+			}
+		}
+	}
+	return nil
+}
+
+func TestC14Clients(t *testing.T) {
+	RunProp(t, Prop[C14ClientCase]{ID: "C14",
+		Gen:  func(t *rapid.T) C14ClientCase { return C14ClientCase{Reg: genC02(t).Reg} },
+		Exec: execC14Clients,
+		NT: func(c C14ClientCase) (bool, []string) {
+			nt, l := ntC02(C02Case{Reg: c.Reg})
+			return nt || len(c.Reg.Tools) > 1, l
+		}})
 }
